@@ -93,7 +93,8 @@ def stringform_slices(rnd, tier):
     element 0, reversed with an explicit stop, single (also negative) indices."""
     dims = {'T1': {'t': 2, 'y': 2, 'x': 3}, 'T2': {'t': 3, 'z': 1, 'x': 2},
             'T3': {'y': 3, 't': 2, 'x': 2}, 'T4': {'t': 2, 'y': 2, 'x': 2},
-            'T7': {'t': 2, 'z': 3, 'y': 2, 'x': 3}}
+            'T7': {'t': 2, 'z': 3, 'y': 2, 'x': 3},
+            'T9': {'t': 2, 'lev': 3, 'lev2': 2, 'lev2m': 2, 'lev10': 2}}
 
     def sl(a, b, c):
         return {'k': 'slice', 'h': [a is not None, b is not None,
@@ -111,12 +112,19 @@ def stringform_slices(rnd, tier):
                 if s_['k'] == 'slice' and len(range(*cd.py_sel(s_).indices(
                         n))) == 0:
                     continue
+                args = {'sels': [{'d': d, 's': s_}], 'newdim': 'POINTS',
+                        'via': 'slice_dim'}
+                # the default of the command line: the numbered variants of
+                # the dimension are sliced too
+                if t == 'T9' or rnd.random() < 0.5:
+                    args['fz'] = cd.fz_of(dims[t])
                 progs.append({'templates': [t], 'steps': [{
-                    'act': 'slice', 'src': 1, 'others': [], 'args': {
-                        'sels': [{'d': d, 's': s_}], 'newdim': 'POINTS',
-                        'via': 'slice_dim'}}]})
+                    'act': 'slice', 'src': 1, 'others': [], 'args': args}]})
     if tier == 'quick':
-        progs = rnd.sample(progs, min(len(progs), 90))
+        t9 = [p for p in progs if p['templates'] == ['T9']]
+        rest = [p for p in progs if p['templates'] != ['T9']]
+        progs = rnd.sample(rest, min(len(rest), 90)) + \
+            rnd.sample(t9, min(len(t9), 30))
     return progs
 
 
@@ -125,22 +133,28 @@ def stringform_applies(rnd, tier):
     reduce_dim ('dim,function') and convolve_dim ('dim,mode,weights')."""
     dims = {'T1': ['t', 'y', 'x'], 'T2': ['t', 'z', 'x'],
             'T3': ['y', 't', 'x'], 'T4': ['t', 'z', 'y', 'x'],
-            'T7': ['t', 'z', 'y', 'x']}
+            'T7': ['t', 'z', 'y', 'x'],
+            'T9': ['t', 'lev', 'lev2', 'lev2m', 'lev10']}
     progs = []
     for t in sorted(dims):
         for d in dims[t]:
             for fn in ('sum', 'min', 'max', 'mean'):
+                args = {'funcs': [{'d': d, 'kind': 'reducer', 'f': fn}],
+                        'via': 'reduce_dim'}
+                if t == 'T9' or rnd.random() < 0.5:
+                    args['fz'] = cd.fz_of(dims[t])
                 progs.append({'templates': [t], 'steps': [{
-                    'act': 'apply', 'src': 1, 'others': [], 'args': {
-                        'funcs': [{'d': d, 'kind': 'reducer', 'f': fn}],
-                        'via': 'reduce_dim'}}]})
+                    'act': 'apply', 'src': 1, 'others': [], 'args': args}]})
             for fn in sorted(cd.CONVDEFS):
                 progs.append({'templates': [t], 'steps': [{
                     'act': 'apply', 'src': 1, 'others': [], 'args': {
                         'funcs': [{'d': d, 'kind': 'callable', 'f': fn}],
                         'via': 'convolve_dim'}}]})
     if tier == 'quick':
-        progs = rnd.sample(progs, min(len(progs), 70))
+        t9 = [p for p in progs if p['templates'] == ['T9']
+              and 'fz' in p['steps'][0]['args']]
+        rest = [p for p in progs if p not in t9]
+        progs = rnd.sample(rest, min(len(rest), 70)) + t9
     return progs
 
 
